@@ -1,6 +1,8 @@
 //! dvsim — deterministic simulation of darklua's frontend with fault injection.
 //! See /verif/DESIGN.md.
 
+#![allow(dead_code)]
+
 #[allow(dead_code)]
 #[path = "/repo/src/cli/mod.rs"]
 mod cli;
